@@ -364,6 +364,15 @@ class NegateExpression(UnaryExpression):
             # a "-" directly before a literal makes a negative literal: "-2^2" would be
             # read as (-2)^2, "-2!" as (-2)! and "-2! * 3" as (-2)! * 3
             inner = f"({inner})"
+        elif (
+            isinstance(inner, (MultiplyExpression, DivideExpression))
+            and isinstance(self.parent, (MultiplyExpression, DivideExpression))
+            and self.parent.left is self
+            and len(inner.find_type(DivideExpression)) > 0
+        ):
+            # A product or quotient on the left of "*" or "/" is grouped with parentheses;
+            # the sign must not hide that grouping: "-x / 2 * 3" is read as -(x / (2 * 3))
+            inner = f"({inner})"
         return self.with_color("-{}".format(inner))
 
     def to_math_ml_fragment(self) -> str:
